@@ -51,14 +51,16 @@ CLAIMED = {
             "that the call returns Ok or Err - no panic, no arithmetic overflow, no out-of-bounds slice, no unwrap failure - and that inadmissible prefixes are refused before any read loop.",
             "Bounded lengths (<= 65 bytes) and small instances; allocation proportionality is implied only through 'prefix > remaining input is refused before "
             "allocation'; decoders that take element counts from the wire inside bitvec-based types are not covered.", "DESIGN.md §4 C07/C08", False),
-    "C09": ("bounded symbolic model checking (Kani/CBMC) of the generic field arithmetic: exhaustive at 8/16-bit word sizes, full-width add/sub/neg/reducedness and decoding accept sets",
-            "The crate's generic arithmetic (fp::ops, make_field!) is decided for every operand pair at 8-bit word sizes against `%` (add, sub, neg, "
-            "Montgomery mul, montgomery/residue, pow, inv; primes 17 and 251), at 16 bit against an independent reference REDC, and at the shipped "
-            "32/64/128-bit parameter sets for add/sub/neg/modp, reducedness of products, Eq/ct_eq/select/negate consistency and the byte-decoding accept "
-            "sets (accepted iff LE(bytes) < p, incl. Field255's constant-time comparison). Every operand is symbolic, so limb and modulus boundaries are covered by construction.",
-            "Full-width correctness of the Montgomery *product value* (REDC relation at 32/64/128 bit) is the subject of engine M and is only claimed where the evidence "
-            "lists the M lemmas; pow/inv are decided at 8-bit words only; Field255 mul/inv are fiat-crypto's (trusted); primality of p is not decided.",
-            "DESIGN.md §4 C09", True),
+    "C09": ("MIR->SMT symbolic execution of the Montgomery kernels (cut-point lemma chain, z3 + cvc5) plus Kani/CBMC on the 8/16-bit instantiations and the full-width glue",
+            "Engine M executes rustc's MIR of fp::ops symbolically (integers with explicit mod 2^W): add/sub/neg/modp equal arithmetic mod p for every operand and every modulus "
+            "0 < p < 2^W at W = 32, 64, 128; the single-word REDC of FP32/FP64 satisfies r < p and r*R + e*p*R = x*y + p*w for every word x and every y < p with mu recomputed from p; "
+            "the split-word REDC of FP128 (and of two 16-bit instantiations, one with a modulus whose low half is not 1 so that every carry is live) is decided by a five-lemma chain "
+            "(schoolbook limbs, reduction round 1, round 2, final subtraction, closing implication) together with every no-overflow obligation of the body; montgomery/residue follow as corollaries; "
+            "all field constants (MU, R2, HALF, BIT_MASK, ROOTS chain, order of G) are re-derived from p. The translator is validated on every run against the natively compiled functions, "
+            "a failed lemma is lifted to a real operand pair and replayed natively before it is reported. Engine K adds: the same generic code exhaustively at 8-bit words against `%` "
+            "(incl. pow and inv), 16-bit REDC against an independent reference, reducedness/Eq/ct_eq/select/negate consistency and the byte-decoding accept sets of all four shipped fields.",
+            "pow/inv are decided at 8-bit words only; Field255 mul/inv are fiat-crypto's (trusted); primality of p is not decided; a lemma quantifies over all stage pre-states within its "
+            "invariant (superset of the reachable ones); trusted: the intrinsic table of engine M, rustc MIR, z3/cvc5, Kani/CBMC.", "DESIGN.md §4 C09", True),
     "C10": ("bounded symbolic model checking (Kani/CBMC) of the generic NTT/Lagrange routines over GF(17) against textbook oracles",
             "ntt, ntt_set_s, ntt_inv, nth_root_powers, poly_eval_lagrange_batched, extend_values_to_power_of_2, double_evaluations, poly_mul_lagrange, "
             "poly_eval_monomial and poly_interpret_eval (the crate's generic code at F = GF(17)) are compared with direct Horner evaluation / naive Lagrange "
